@@ -17,6 +17,8 @@ pub static MMAP_CALLS: AtomicI64 = AtomicI64::new(0);
 /// fail the n-th (1-based) recorded mprotect from now on; 0 = never
 pub static MPROTECT_FAIL_AT: AtomicI64 = AtomicI64::new(0);
 pub static MPROTECT_CALLS: AtomicI64 = AtomicI64::new(0);
+/// while non-zero: every recorded mprotect whose range covers this page address fails (a page the kernel refuses to make writable)
+pub static MPROTECT_FAIL_PAGE: AtomicI64 = AtomicI64::new(0);
 /// microseconds to sleep inside every recorded __clear_cache / mprotect (C04 slowed-restore probe)
 pub static SLOW_US: AtomicI64 = AtomicI64::new(0);
 
@@ -73,7 +75,9 @@ pub unsafe extern "C" fn mprotect(addr: *mut libc::c_void, len: usize, prot: i32
     }
     let n = MPROTECT_CALLS.fetch_add(1, SeqCst) + 1;
     let fail_at = MPROTECT_FAIL_AT.load(SeqCst);
-    let r = if fail_at != 0 && n == fail_at { -1 } else { raw_mprotect(addr, len, prot) };
+    let fp = MPROTECT_FAIL_PAGE.load(SeqCst) as u64;
+    let covers = fp != 0 && (addr as u64) <= fp && fp < (addr as u64) + (len as u64).max(1);
+    let r = if (fail_at != 0 && n == fail_at) || covers { -1 } else { raw_mprotect(addr, len, prot) };
     push(Ev { kind: b'P', a: addr as u64, b: len as u64, ret: r as i64, n: 0, content: [0; 32], tid: tid() });
     let us = SLOW_US.load(SeqCst);
     if us > 0 { libc::usleep(us as u32); }
